@@ -256,3 +256,29 @@ Proof.
   - rewrite !andb_assoc. f_equal. apply andb_comm.
   - rewrite IH1. exact IH2.
 Qed.
+
+(* a stored float against a double, and two stored floats: compared as doubles after widening *)
+Theorem float_vs_double : forall x y,
+  op_eq (JFloat x) (JDouble y) = f_eq (fconv F64 x) y /\
+  op_lt (JFloat x) (JDouble y) = f_lt (fconv F64 x) y /\
+  op_gt (JFloat x) (JDouble y) = f_gt (fconv F64 x) y.
+Proof.
+  intros x y. unfold op_eq, op_lt, op_gt.
+  rewrite compare_scalar by (intros; discriminate).
+  cbn [compare_step numv_of arith nv_to_double]. unfold cmp_f64, f_eq, f_lt, f_gt.
+  destruct (SFcompare (fconv F64 x) y) as [[| |]|]; cbn [cmp_rev is_equal]; repeat split.
+Qed.
+
+Theorem float_vs_float : forall x y,
+  op_eq (JFloat x) (JFloat y) = f_eq (fconv F64 x) (fconv F64 y) /\
+  op_lt (JFloat x) (JFloat y) = f_lt (fconv F64 x) (fconv F64 y) /\
+  op_gt (JFloat x) (JFloat y) = f_gt (fconv F64 x) (fconv F64 y).
+Proof.
+  intros x y. unfold op_eq, op_lt, op_gt.
+  rewrite compare_scalar by (intros; discriminate).
+  cbn [compare_step numv_of arith nv_to_double]. unfold cmp_f64, f_eq, f_lt, f_gt.
+  destruct (SFcompare (fconv F64 x) (fconv F64 y)) as [[| |]|]; cbn [cmp_rev is_equal]; repeat split.
+Qed.
+
+Theorem bool_eq_by_value : forall a b, op_eq (JBool a) (JBool b) = Bool.eqb a b.
+Proof. intros [|] [|]; reflexivity. Qed.
